@@ -172,6 +172,8 @@ def run_inner(args):
                 ca, cb = rng.choice((1, 2, -1)), rng.choice((1, -1, 3))
                 try:
                     new = fpeps.add(psi, phi, amplitudes=[ca, cb])
+                    if max(max(new[s].get_shape()[:4]) for s in g.sites()) > 32:
+                        continue         # same cap as for gates: sums add the bond dimensions, to_tensor() of the result would not fit
                     ent, integral = pepsx.state_entries(fam, new, order)
                 except YastnError as ex:
                     # documented: states with different structure of ancilla offsets cannot be added
